@@ -42,6 +42,9 @@ def rules(chk, db):
     encrules.prefix_kind(chk, db, 'PK', ('Prefix', 'Match'))
     chk.rule('CO', 'wrapper encoders are composed of exactly the documented component encodings', minimum=30)
     encrules.composition(chk, db, 'CO', ('WritePayload', 'ReadPayload', 'Prefix', 'Match'))
+    # Size() is on the wire wherever a value sits in a table entry (the declared entry size) and decides Prepare(): a Size that
+    # disagrees with the writer makes the value unwritable there, or the reader's frame end in the wrong place
+    encrules.size_rules(chk, db)
     w = chk.extra.get('struct_member_order_w', {})
     r = chk.extra.get('struct_member_order_r', {})
     for t in sorted(set(w) & set(r)):      # types that are both written and read somewhere in the analysed units
